@@ -242,7 +242,7 @@ fn main() {
             run_replays(&sched, &findings, &mut rep);
             rep.merge(run_prop(&main, cases_for(tier, 60, 1500), seed, 0, &findings));
             rep.merge(run_prop(&crash_prop("C02", Judge::Acked, 0, false), cases_for(tier, 8, 300), seed, 1, &findings));
-            rep.merge(run_prop(&crash_prop("C02", Judge::Acked, 5, true), cases_for(tier, 12, 300), seed, 2, &findings));
+            rep.merge(run_prop(&crash_prop("C02", Judge::Acked, 5, true), cases_for(tier, 24, 500), seed, 2, &findings));
             rep.merge(run_prop(&sched, cases_for(tier, 1500, 30000), seed, 3, &findings));
             let rule = format!("{} || SCHEDULE STREAM ({})", main.rule, sched.rule);
             finish(main.id, main.level, tier, seed, &rule, &main.assumptions, &rep, t0.elapsed().as_secs_f64(), &findings)
@@ -267,7 +267,7 @@ fn main() {
             run_replays(&sched, &findings, &mut rep);
             rep.merge(run_prop(&main, cases_for(tier, 60, 1500), seed, 0, &findings));
             rep.merge(run_prop(&crash_prop("C03", Judge::Prefix, 0, false), cases_for(tier, 8, 300), seed, 1, &findings));
-            rep.merge(run_prop(&crash_prop("C03", Judge::Prefix, 5, true), cases_for(tier, 12, 300), seed, 2, &findings));
+            rep.merge(run_prop(&crash_prop("C03", Judge::Prefix, 5, true), cases_for(tier, 24, 500), seed, 2, &findings));
             rep.merge(run_prop(&sched, cases_for(tier, 1500, 30000), seed, 3, &findings));
             let rule = format!("{} || SCHEDULE STREAM ({})", main.rule, sched.rule);
             finish(main.id, main.level, tier, seed, &rule, &main.assumptions, &rep, t0.elapsed().as_secs_f64(), &findings)
@@ -426,6 +426,8 @@ fn main() {
                 rep.merge(run_prop(&props::c07(true), cases_for(tier, 800, 15000), seed, 1, &findings));
             }
             rep.merge(run_prop(&crash, cases_for(tier, 40, 1200), seed, 2, &findings));
+            // small memtables, commits run into a full memtable: images whose last WAL segment recovery has to split
+            rep.merge(run_prop(&crash_prop("C07", Judge::Reopen, 7, true), cases_for(tier, 16, 400), seed, 3, &findings));
             finish(main.id, main.level, tier, seed, &main.rule, &main.assumptions, &rep, t0.elapsed().as_secs_f64(), &findings)
         }
         "C08" => run_model(vec![(props::c08(), 120000, 1000000)], tier, replay),
